@@ -19,22 +19,28 @@ from vlib import hist, hops, hschema
 
 
 def populate(eng, rng, per_entity=3):
-    """deterministic valid population with some links, committed"""
+    """deterministic valid population with some links, committed; returns the operations executed, so that a
+    witness (population + sequence) can be replayed from an empty database"""
     g = hops.Gen(rng, eng, invalid_rate=0.0)
     g.avoid_conflicts = True
     ents = [e['name'] for e in eng.spec['entities']]
+    done = []
+    def do(op):
+        done.append(op)
+        return eng.step(op)
     for rnd in range(per_entity):
         for en in ents:
             for _ in range(4):
                 op = g.create_op(en)
                 if op is None: continue
-                out = eng.step(op)
+                out = do(op)
                 if out == 'applied': break
     for i in range(per_entity * len(ents)):
         op = g._gen_kind(rng.choice(['add', 'set', 'add']))
-        if op is not None: eng.step(op)
-        if eng.pending_dups: eng.step({'op': 'rollback'})
-    eng.step({'op': 'end'})
+        if op is not None: do(op)
+        if eng.pending_dups: do({'op': 'rollback'})
+    do({'op': 'end'})
+    return done
 
 
 def dump_sql(path):
@@ -51,6 +57,11 @@ def dump_sql(path):
         con.close()
 
 
+def norm_rows(rows):
+    """row order of a table is not data"""
+    return {t: (cols, sorted(data, key=repr)) for t, (cols, data) in rows.items()}
+
+
 def restore_sql(path, rows):
     con = sqlite3.connect(path)
     try:
@@ -64,7 +75,7 @@ def restore_sql(path, rows):
         con.close()
 
 
-def rel_alphabet(eng, ent, attr, cap=16):
+def rel_alphabet(eng, ent, attr, cap=16, scalars=False):
     """operations touching relationship ent.attr (and its reverse) for up to two objects per side"""
     rules = eng.rules
     a = rules.ents[ent].attrs[attr]
@@ -106,7 +117,28 @@ def rel_alphabet(eng, ent, attr, cap=16):
         # the reverse side contributes its modifications and two reads
         keep = [o for o in rs if o['op'] in hops.MOD_OPS][:4] + [o for o in rs if o['op'] not in hops.MOD_OPS][:2]
         ops += keep
-    # keep modifications, trim reads deterministically if the alphabet is too large
+    if scalars:
+        for en in dict.fromkeys([ent, a.target]): ops.append({'op': 'selectall', 'ent': en})
+        # plain-attribute writes / reads on the first object of each side: together with the relationship reads
+        # (which hand out pk-only objects) they reach 'unflushed write on an object whose row is loaded later'
+        for o in A[:1] + [b for b in B[:1] if b not in A[:1]]:
+            er = rules.ents[st.objs[o].ent]
+            keyed = {n for k in rules.unique_keys(st.objs[o].ent) for n in k}
+            plain = [n for n, at in er.attrs.items() if at.kind == 'scalar' and not at.is_pk and n not in keyed and not at.auto]
+            for i, n in enumerate(plain[:2]):
+                if i == 0:
+                    v = 'sv%d' % o if er.attrs[n].type == 'str' else 7000 + o
+                    ops.append({'op': 'set', 'oid': o, 'attr': n, 'val': v})
+                ops.append({'op': 'read', 'oid': o, 'attr': n})
+            ops.append({'op': 'todict', 'oid': o})      # reads every attribute: loads the row of a pk-only object
+            # one assignment and one read of every OTHER to-one relationship of the object (assignments load the
+            # previous value with flushing disabled)
+            for n, at in er.attrs.items():
+                if at.kind != 'ref' or at.is_pk or (at.owner, n) in ((a.owner, a.name), (r.owner, r.name)): continue
+                cur = st.objs[o].vals.get(n)
+                cands = [x for x in sorted(st.of_entity(at.target)) if x != cur and x != o]
+                if cands: ops.append({'op': 'set', 'oid': o, 'attr': n, 'val': {'ref': cands[0]}})
+                ops.append({'op': 'read', 'oid': o, 'attr': n})
     return ops
 
 
@@ -146,6 +178,31 @@ def focuses(eng):
     return out
 
 
+def run_sequence(eng, ops):
+    """one sequence in one session (the op list ends with commit, end); returns the outcomes"""
+    eng.diverged = None
+    outs = []
+    for op in ops:
+        outs.append(eng.step(op))
+        if eng.diverged: break
+    if eng.session is not None:
+        try: eng.step({'op': 'abort'})
+        except Exception: pass
+        if eng.session is not None:
+            try: eng._exit_session(abort=True)
+            except Exception: pass
+            eng.session = None
+    return outs
+
+
+def restore_baseline(eng, base_rows, base_model):
+    restore_sql(eng.file, base_rows)
+    eng.committed = base_model.copy(); eng.working = base_model.copy()
+    eng.h = {}; eng.rev = {}; eng.unflushed = set(); eng.pending_dups = False; eng.tainted = None
+    del eng.rec.events[:]
+    eng.trace = []
+
+
 def run_small_scope(ctx, cfg):
     """cfg: {'templates': [names], 'length': {'quick': 3, 'thorough': 4}, 'monitors': [...], 'budget': {'quick': n, 'thorough': n}}"""
     from vlib import hfindings
@@ -174,7 +231,7 @@ def run_small_scope(ctx, cfg):
         eng = hist.Engine(t, workdir, name='ss_' + t['name'], count=counts)
         eng.stop_on_taint = cfg.get('stop_on_taint', True)
         try:
-            populate(eng, rng)
+            pop_ops = populate(eng, rng)
             alphabet = rel_alphabet(eng, f[1], f[2]) if f[0] == 'rel' else key_alphabet(eng, f[1], f[2])
             if len(alphabet) < 3: continue
             base_rows = dump_sql(eng.file)
@@ -195,17 +252,7 @@ def run_small_scope(ctx, cfg):
             for seq in sequences():
                 ops = [alphabet[i] for i in seq] + [{'op': 'commit'}, {'op': 'end'}]
                 n0 = len(eng.reports)
-                eng.diverged = None
-                for op in ops:
-                    eng.step(op)
-                    if eng.diverged: break
-                if eng.session is not None:
-                    try: eng.step({'op': 'abort'})
-                    except Exception: pass
-                    if eng.session is not None:
-                        try: eng._exit_session(abort=True)
-                        except Exception: pass
-                        eng.session = None
+                run_sequence(eng, ops)
                 done += 1
                 ctx.case(fp([t['name'], f, seq]), nontrivial=any(alphabet[i]['op'] in hops.MOD_OPS for i in seq),
                          sample={'template': t['name'], 'focus': f, 'ops': ops} if done <= 3 else None)
@@ -215,18 +262,13 @@ def run_small_scope(ctx, cfg):
                     key = (t['name'], f, r.monitor, r.kind)
                     if key in reported: continue
                     reported.add(key)
-                    fid = hfindings.classify(ctx.pid, r, eng, ops)
-                    w = {'spec': t, 'focus': list(map(str, f)), 'ops': ops, 'report': r.as_dict(), 'mode': 'small-scope',
-                         'population_seed': 'small/%s/%d' % (t['name'], ctx.seed)}
+                    # population + sequence: replayable from an empty database (classification replays, --replay)
+                    full = pop_ops + ops
+                    fid = hfindings.classify(ctx.pid, r, eng, full)
+                    w = {'spec': t, 'focus': list(map(str, f)), 'ops': full, 'sequence': ops, 'report': r.as_dict(), 'mode': 'small-scope'}
                     if fid: ctx.finding(fid, w)
                     else: ctx.violation(w, mechanism='smallscope.%s.%s' % (r.monitor, r.kind))
-                # restore baseline
-                if eng.committed.objs != base_model.objs or True:
-                    restore_sql(eng.file, base_rows)
-                    eng.committed = base_model.copy(); eng.working = base_model.copy()
-                    eng.h = {}; eng.rev = {}; eng.unflushed = set(); eng.pending_dups = False; eng.tainted = None
-                del eng.rec.events[:]
-                eng.trace = []
+                restore_baseline(eng, base_rows, base_model)
         finally:
             eng.close()
         for k, v in counts.items(): ctx.count(k, v)
